@@ -167,7 +167,7 @@ theorem md_ns_read {pre : List Region} {base size : Nat} {σ : St} {slots : List
 theorem md_ns_push {pre : List Region} {base size : Nat} {σ : St} {slots : List Nat}
     (h : md_NS pre base size σ slots) (hroom : 8 * (slots.length + 1) ≤ size) (v : BitVec 64) :
     ∃ σ1, X86.push σ v = some σ1 ∧ σ1.reg = (σ.set 4 (σ.get 4 - 8)).reg ∧ σ1.rip = σ.rip ∧ σ1.flags = σ.flags ∧
-      md_NS pre base size σ1 (slots ++ [v.toNat]) := by
+      σ1.log = σ.log ∧ σ1.misaligned = σ.misaligned ∧ md_NS pre base size σ1 (slots ++ [v.toNat]) := by
   obtain ⟨⟨lower, hm, hb, hs, hsl⟩, hpre, _, hsp, hbd⟩ := h
   have hspv : (σ.get 4 - 8).toNat = (σ.get 4).toNat - 8 := by
     rw [BitVec.toNat_sub]
@@ -186,7 +186,7 @@ theorem md_ns_push {pre : List Region} {base size : Nat} {σ : St} {slots : List
       simp [Region.contains, hb, hs]
       omega
   refine ⟨{ (σ.set 4 (σ.get 4 - 8)) with mem := pre ++ [Memory.writeRegion lower (σ.get 4 - 8).toNat (leBytes v.toNat 8)] },
-    ?_, rfl, rfl, rfl, ?_⟩
+    ?_, rfl, rfl, rfl, rfl, rfl, ?_⟩
   · unfold X86.push
     simp only [X86.RSP]
     rw [hw]
